@@ -45,8 +45,8 @@ def facts_for(args):
         return dst, None
     base = tempfile.mkdtemp(prefix='rsv-cf-')
     try:
-        shutil.copytree('/repo/src', os.path.join(base, 'src'))
-        shutil.copy('/repo/Cargo.toml', base)
+        # the committed tree, not the working tree: the official runners may have a patch applied to /repo at this moment
+        subprocess.run('git -C /repo archive HEAD src Cargo.toml | tar -x -C %s' % shlex.quote(base), shell=True, check=True)
         if patch:
             r = subprocess.run(['patch', '-p1', '--no-backup-if-mismatch', '-s', '-f', '-i', patch], cwd=base, capture_output=True, text=True)
             if r.returncode != 0:
@@ -121,8 +121,7 @@ def main():
             items.append((os.path.basename(os.path.dirname(os.path.abspath(w))) + '/' + os.path.basename(w), os.path.abspath(w), []))
     cmd, sysroot = member_cmd()
     head = subprocess.run(['git', '-C', '/repo', 'rev-parse', 'HEAD'], capture_output=True, text=True).stdout.strip()
-    dirty = subprocess.run(['git', '-C', '/repo', 'diff', '--', 'src'], capture_output=True, text=True).stdout
-    stamp = head + dirty + str(os.path.getmtime(build.DRIVER))
+    stamp = head + str(os.path.getmtime(build.DRIVER))
     jobs = []
     for sid, p, br in items:
         h = hashlib.sha1((stamp + (open(p).read() if p else '')).encode()).hexdigest()[:20]
